@@ -702,3 +702,30 @@ def cylinder_quads(k, l):
     vid = lambda i, j: j * k + (i % k)
     faces = [(vid(i, j), vid(i + 1, j), vid(i + 1, j + 1), vid(i, j + 1)) for j in range(l - 1) for i in range(k)]
     return pts, faces
+
+
+def fan_split_tet(n_splits, border_last=True):
+    """One tetrahedron whose cells are repeatedly fan-split at their barycentre (the split cell is chosen by a fixed
+    rule): 4 border vertices, n_splits interior vertices, 1 + 3 n_splits cells, embedded, exact rational coordinates.
+    With border_last the interior vertices are numbered first, so the border vertices carry the largest ids."""
+    from fractions import Fraction as Fr
+    pts = [(Fr(0), Fr(0), Fr(0)), (Fr(64), Fr(0), Fr(0)), (Fr(0), Fr(64), Fr(0)), (Fr(0), Fr(0), Fr(64))]
+    cells = [(0, 1, 2, 3)]
+    for i in range(n_splits):
+        c = (i * 7) % len(cells)
+        a, b, cc, d = cells[c]
+        bary = tuple(sum(pts[v][k] for v in (a, b, cc, d)) / 4 for k in range(3))
+        nb = len(pts); pts.append(bary)
+        cells[c] = (nb, b, cc, d)
+        cells += [(a, nb, cc, d), (a, b, nb, d), (a, b, cc, nb)]
+    if border_last:
+        n = len(pts)
+        perm = {0: n - 4, 1: n - 3, 2: n - 2, 3: n - 1}
+        perm.update({v: v - 4 for v in range(4, n)})
+        newpts = [None] * n
+        for v, w in perm.items():
+            newpts[w] = pts[v]
+        pts = newpts
+        cells = [tuple(perm[v] for v in c) for c in cells]
+    cells = [c if tet_volume6(*(pts[v] for v in c)) > 0 else (c[0], c[1], c[3], c[2]) for c in cells]
+    return pts, cells
